@@ -1,3 +1,5 @@
+use std::cmp;
+
 use crate::{model::mode::ConvertError, osu::OsuGradualDifficulty, Beatmap, Difficulty};
 
 use super::{OsuPerformanceAttributes, OsuScoreState};
@@ -107,6 +109,9 @@ impl OsuGradualPerformance {
     /// `n=1` will process 2, and so on.
     #[allow(clippy::missing_panics_doc)]
     pub fn nth(&mut self, state: OsuScoreState, n: usize) -> Option<OsuPerformanceAttributes> {
+        // Process at most all remaining objects
+        let n = cmp::min(n, self.difficulty.len().saturating_sub(1));
+
         let performance = self
             .difficulty
             .nth(n)?
